@@ -424,8 +424,8 @@ SERDE_TYPES = ["kmer::IntKmer", "kmer::VarIntKmer", "dna_string::DnaString", "dn
                "graph::BaseGraph", "graph::DebruijnGraph"]
 
 
-def serde_rules(F, rep, rule="C20.4"):
-    for adt in SERDE_TYPES:
+def serde_rules(F, rep, rule="C20.4", types=None):
+    for adt in (types or SERDE_TYPES):
         d = structural.derives(F, adt)
         for tr in ("Serialize", "Deserialize"):
             hit = [k for k in d if k.endswith("::" + tr)]
